@@ -99,7 +99,7 @@ def in_scope(prop, failure, reach=None, results=()):
     return False
 
 
-def write_evidence(prop, tier, seed, results, kani_results, violations, known_hits, wall, extra_notes, bounded=()):
+def write_evidence(prop, tier, seed, results, kani_results, violations, known_hits, wall, extra_notes, bounded=(), reach=None):
     spec = PROPS[prop]
     obligations = sum(r.obligations() for r in results)
     discharged = sum(r.discharged() for r in results)
@@ -149,6 +149,11 @@ def write_evidence(prop, tier, seed, results, kani_results, violations, known_hi
             {"searcher": b["searcher"], "label": "bounded (not a proof)", "bound": b["bound"], "cases_run_on_real_crate": b["cases"],
              "wall_s": b["wall_s"], "failing_input_found": bool(b.get("witness"))} for b in bounded],
         "not_covered": spec.get("not_covered", []),
+        # functions of /repo this property depends on (its roots and what they call inside the units); a failed obligation or a
+        # degraded function outside this cone is reported as a note only
+        "dependency_cone": sorted("%s:%s" % x for x in reach) if reach is not None else "all extracted functions of the units",
+        # functions whose annotated body could not be generated or type-checked on this tree: contract assumed, body NOT verified
+        "degraded_functions": ["%s:%s (%s)" % (r.unit, lab, reason) for r in results for lab, reason in r.degraded],
         "known_findings_hit": known_hits,
         "failed_obligations": [v["obligation"] for v in violations],
         "notes": extra_notes,
@@ -285,7 +290,7 @@ def run_property(prop, tier, seed):
             print("UNDECIDED: " + u)
         rc = 2
     wall = time.time() - t0
-    write_evidence(prop, tier, seed, results, kani_results, reported, known_hits, wall, notes + undecided, bounded)
+    write_evidence(prop, tier, seed, results, kani_results, reported, known_hits, wall, notes + undecided, bounded, reach)
     tot = sum(r.obligations() for r in results); dis = sum(r.discharged() for r in results)
     print("%s %s: units=%s verus function-VCs %d/%d discharged, smt %d ms, kani harnesses %d, wall %.1fs -> %s" % (
         prop, tier, ",".join(units), dis, tot, sum(r.smt_ms for r in results), len(kani_results), wall,
